@@ -94,6 +94,10 @@ static int32_t traverse_schema_recursive(
         }
     }
 
+    /* Remember the levels on the node itself (schema node accessors) */
+    ((parquet_schema_element_t*)elem)->max_def_level = this_def;
+    ((parquet_schema_element_t*)elem)->max_rep_level = this_rep;
+
     if (elem->num_children == 0) {
         /* Leaf node - record the accumulated levels */
         ctx->max_def[ctx->leaf_idx] = this_def;
